@@ -1,7 +1,8 @@
 /-
   QKV.Model.LayerConfig — the configuration algebra of qkeras layers (property C13).
 
-  Mirrors (as written, defects included):
+  Mirrors (as written; the defects repaired in the fix round — notes/C13.md — are mirrored in
+  their repaired form):
     qkeras/quantizers.py   <quantizer>.get_config / from_config (`cls(**config)`), `get_quantizer`,
                            `_set_trainable_parameter`
     qkeras/qlayers.py      `Clip.get_config/from_config`, `QInitializer.get_config/from_config`,
@@ -119,8 +120,9 @@ structure QSpec where
   params : List (String × PyVal)
   /-- keys of `get_config()` -/
   emits : List String
-  /-- attributes that `get_config` emits although they are not constructor parameters
-      (quantized_hswish inherits quantized_bits.get_config: keep_negative, post_training_scale) -/
+  /-- attributes that `get_config` emits although they are not constructor parameters.  Empty for
+      every class since the fix round (quantized_hswish used to inherit quantized_bits.get_config
+      with keep_negative / post_training_scale); kept so that such a defect can be mirrored -/
   extra : List (String × PyVal)
   /-- `_set_trainable_parameter`: 0 absent, 1 alpha := "auto_po2", 2 also symmetric := True -/
   trainable : Nat
